@@ -115,6 +115,46 @@ def _has_anchor(doc):
     return any(n["anchor"] for n in doc)
 
 
+def random_pairs(ctx, n_pairs):
+    """C->S beyond the bound: seeded random pairs of larger documents whose anchors come from the pool {A, B}."""
+    import random
+    from harness import randdocs, mergeobs
+    rng = random.Random(ctx.seed + 9)
+    H, A, O, S = ["deep", "left", "right"], ["all", "left", "right", "unique"], ["all", "deep", "left", "right", "unique"], ["left", "right", "unique"]
+    recs = []
+    tries = 0
+    while len(recs) < n_pairs * 4 and tries < n_pairs * 40:
+        tries += 1
+        l = randdocs.rand_doc(rng, max_nodes=12, max_depth=3, anchor_names=["A", "B"], anchor_p=0.4, alias_p=0.3)
+        r = randdocs.rand_doc(rng, max_nodes=12, max_depth=3, anchor_names=["A", "B"], anchor_p=0.4, alias_p=0.3)
+        if not (_has_anchor(l) and _has_anchor(r)):
+            continue
+        h, a, o, s = rng.choice(H), rng.choice(A), rng.choice(O), rng.choice(S)
+        for am in ("stop", "left", "right", "rename"):
+            recs.append({"id": len(recs), "l": l, "r": r, "h": h, "a": a, "o": o, "s": s, "am": am})
+    exp = mergeobs.batch_expectations(ctx, recs, "rnd")
+    items = []
+    for i, r in enumerate(recs):
+        e = exp[r["id"]]
+        rec = {"key": "rnd%d" % r["id"], "l": r["l"], "r": r["r"],
+               "group": {"res": {"ok": e["ok"], "info": e["info"], "out": e["out"]},
+                         "cfgs": ["%s/%s/%s/%s/%s" % (r["h"], r["a"], r["o"], r["s"], r["am"])]}}
+        items.append((rec, [("block", False, bool((i // 4) % 2))]))
+    total = info = conflicts = 0
+    for n, out in querycorpus.pmap(_work, items, chunk=100):
+        total += n
+        for sig, desc, rp in out:
+            if sig == "info":
+                info += 1
+            else:
+                ctx.violation("random:" + sig, desc, rp)
+    for rec, _ in items:
+        la, ra = _defs(rec["l"]), _defs(rec["r"])
+        if any(k in ra and ra[k] != v for k, v in la.items()):
+            conflicts += 1
+    return {"random_merges": total, "random_conflicting": conflicts, "random_informational": info}
+
+
 def run(ctx):
     cfgs = ["MC_Merge_anch.cfg", "MC_Merge_anch_r.cfg"] if ctx.quick else ["MC_Merge_anch_t.cfg"]
     recs = []
@@ -143,6 +183,11 @@ def run(ctx):
         ra = {n["anchor"]: (n["t"], n["v"]) for n in rec["r"] if n["anchor"] and not n["alias"]}
         if any(k in ra and ra[k] != v for k, v in la.items()):
             conflicts += len(rec["group"]["cfgs"])
+    rnd = random_pairs(ctx, 150 if ctx.quick else 2500)
+    total += rnd["random_merges"]
+    conflicts += rnd["random_conflicting"]
+    info += rnd["random_informational"]
+    ctx.coverage.update(rnd)
     ctx.informational = info
     ctx.coverage.update({
         "evaluations": total, "distinct_nontrivial": conflicts, "result_groups": len(recs), "model_drift": info,
